@@ -50,6 +50,9 @@ pub fn build(ctl: &'static Ctrl, params: &Value) -> Instance {
             untimed = true;
         }
     }
+    let sem = Arc::new(may::sync::Semphore::new(0));
+    let sem2 = sem.clone();
+    let round_is_sem: Vec<bool> = rounds.iter().map(|r| r == "sem").collect();
     actors.push(actor("p", parker_co, move || {
         if parker_co {
             *sh2.handle.lock().unwrap() = Some(may::coroutine::current());
@@ -64,6 +67,11 @@ pub fn build(ctl: &'static Ctrl, params: &Value) -> Instance {
             let d = Duration::from_nanos(dur_ns.unwrap_or(dur_units * UNIT_NS));
             let t0 = ctl.vnow();
             let res: String = match (kind2.as_str(), op.as_str()) {
+                (_, "sem") => {
+                    // a SyncBlocker wait (its Park has check_cancel = false: a Canceled result reaches park_timeout's epilogue)
+                    sem2.wait();
+                    "Acquired".into()
+                }
                 ("blocker", "park") => format!("{:?}", b.park(None)),
                 ("blocker", _) => {
                     let real0 = std::time::Instant::now();
@@ -112,6 +120,8 @@ pub fn build(ctl: &'static Ctrl, params: &Value) -> Instance {
     for u in 0..nunparkers {
         let sh3 = sh.clone();
         let kind3 = kind.clone();
+        let sem3 = sem.clone();
+        let round_is_sem = round_is_sem.clone();
         actors.push(actor(&format!("u{}", u + 1), unparker_co, move || {
             for _ in 0..unparks_each {
                 may::verif::pt("pk.unpark", 0, 0, 0);
@@ -122,7 +132,9 @@ pub fn build(ctl: &'static Ctrl, params: &Value) -> Instance {
                 if first_only {
                     i = 0; // always the first round's blocker (CancelReg.tla: the waker of the first call)
                 }
-                if kind3 == "blocker" {
+                if round_is_sem.get(i).copied().unwrap_or(false) {
+                    sem3.post();
+                } else if kind3 == "blocker" {
                     let b = sh3.rounds.lock().unwrap()[i].blocker.clone().unwrap();
                     b.unpark();
                 } else {
@@ -270,7 +282,7 @@ pub fn build(ctl: &'static Ctrl, params: &Value) -> Instance {
                     // completed (and nobody cancelled it)
                     let i = sh4.cur.load(SeqCst);
                     let done = if i != usize::MAX && i < rounds.len() { rounds[i].unparks_done } else { 0 };
-                    let timed_round = i != usize::MAX && i < round_ops.len() && round_ops[i] != "park";
+                    let timed_round = i != usize::MAX && i < round_ops.len() && matches!(round_ops[i].as_str(), "tpark" | "sleep");
                     if who.iter().any(|w| w == "p") && parker_co && timed_round {
                         // virtual time has been advanced past every pending timer and the parker still sleeps
                         v.push(Violation { kind: "lost_timeout".into(), detail: format!("the parker sleeps for ever in the timed round {i} ({}): its time-out can no longer fire", round_ops[i]) });
